@@ -92,6 +92,21 @@ fn one_case(run: &Run, case: u64) {
         run.violation("backup-failed", b.describe(), replay);
         return;
     }
+    // every fourth case: one SourceTree handle, opened for the first comparison, is kept and used
+    // for all later ones while the tree changes underneath (a long-running program built on the
+    // library); those cases also change the mode of the top directory itself
+    struct Unhold;
+    impl Drop for Unhold {
+        fn drop(&mut self) {
+            cs::hold_source(false);
+        }
+    }
+    let held_source = case % 4 == 2;
+    let _unhold = Unhold;
+    if held_source {
+        cs::hold_source(true);
+        run.count("cases_with_one_source_handle_kept_across_the_changes", 1);
+    }
     // 1. against the very tree it was made from
     for inc in [false, true] {
         let d = cs::diff(cs::local(&arch), Some(0), &src, inc, &[]);
@@ -155,6 +170,15 @@ fn one_case(run: &Run, case: u64) {
             (n.mtime_s, n.mtime_ns) = clock.next(&mut rng);
             descs.push(format!("kind swap keeping mode and owner: {k} {:?} -> {:?}", old_node.kind, n.kind));
             spec.insert(k, n);
+        }
+    }
+    if held_source || rng.chance(1, 8) {
+        let n = spec.get_mut("/").unwrap();
+        let m = *rng.pick(&[0o700u32, 0o750, 0o711, 0o775, 0o1777]);
+        if m != n.mode {
+            n.mode = m;
+            descs.push(format!("chmod {m:o} of the top directory"));
+            run.count("changes_of_the_top_directory_itself", 1);
         }
     }
     // chown mutation (root only)
